@@ -999,6 +999,12 @@ var _ = os.Getenv
 func (x *Exec) timeNow(fr *frame) Value {
 	// time.Time{wall uint64, ext int64, loc *Location}: arbitrary non-decreasing instant
 	// (seconds since year 1 in ext, wall = 0: no monotonic reading)
+	if x.clockConcrete {
+		// harness declared that the code under test does not branch on time: fixed instants 1 ms apart
+		x.clockTicks++
+		x.stubSeen["time.Now: concrete instants 1 ms apart (verifrt.ClockConcrete)"] = true
+		return Struct{mkConst(64, uint64(x.clockTicks%1000)*1_000_000), mkConst(64, uint64(63_900_000_000+x.clockTicks/1000)), (*Value)(nil)}
+	}
 	t := x.freshAux("now", 64)
 	lo := mkConst(64, 63_000_000_000) // ~ year 1997
 	hi := mkConst(64, 66_000_000_000) // ~ year 2092
@@ -1028,6 +1034,7 @@ func init() {
 		return nil
 	})
 	rt("Yield", func(x *Exec, fr *frame, args []Value) Value { x.schedPoint(); return nil })
+	rt("ClockConcrete", func(x *Exec, fr *frame, args []Value) Value { x.clockConcrete = true; return nil })
 	rt("ClockStrict", func(x *Exec, fr *frame, args []Value) Value { x.clockStrict = true; return nil })
 }
 
